@@ -2,6 +2,12 @@
 from ..gen import cells as G
 
 SPEC = dict(
+    manifest=dict(
+        category='proof',
+        text='Lean proves for EVERY tree of ordinary cells (all bit lengths, ref counts, shapes; SHA-256 abstract) that the model of Cell.__init__ is constructible iff depth<=1023 and reports the textbook representation hash/depth at every level, that get_representation hashes to the cached hash, and that ==/__hash__ coincide with hash equality. The model is tied to the code by differential correspondence through 12 construction routes.',
+        level_note='Trusted: Lean kernel (propext, Classical.choice, Quot.sound), Model/Cell.lean as a faithful hand transcription of cell.py/exotic.py (checked only by sampled correspondence: ~29k node observations per quick run incl. every bit-length class and depth 1022-1025 chains), bitarray/hashlib semantics, the Python harness.',
+        technique='Lean 4 refinement proof (hand model) + differential correspondence with the library',
+    ),
     design_ref='DESIGN.md §6 C01',
     rule='ordinary-cell DAGs: every bit length class (all 1024 lengths in thorough), 0-4 refs, sharing, chains to depth 1022/1023/1024; '
          'each node observed through routes ctor/plain-bitarray/builder/boc/copy/slice/to_builder; distinct = distinct (dag, node, route); '
